@@ -18,6 +18,7 @@ import (
 	"io"
 	"reflect"
 	"runtime"
+	"strconv"
 	"strings"
 	"sync"
 
@@ -521,6 +522,72 @@ func c12Encode(c *Ctx, k protoCase) {
 	}
 }
 
+// hiddenType: the struct type of an untagged shape with unexported fields declared in front of and between the
+// exported ones.  Unexported fields are no part of the message: TypeOf skips them and the numbering of the others.
+var hiddenTypes sync.Map
+
+func hiddenType(t reflect.Type) reflect.Type {
+	if ht, ok := hiddenTypes.Load(t); ok {
+		return ht.(reflect.Type)
+	}
+	var fields []reflect.StructField
+	for i := 0; i < t.NumField(); i++ {
+		fields = append(fields, reflect.StructField{Name: "hidden" + strconv.Itoa(i), PkgPath: "main", Type: reflect.TypeOf([]string(nil))})
+		f := t.Field(i)
+		fields = append(fields, reflect.StructField{Name: f.Name, Type: f.Type, Tag: f.Tag})
+	}
+	ht := reflect.StructOf(fields)
+	hiddenTypes.Store(t, ht)
+	return ht
+}
+
+// c12Hidden: the same message through the type with unexported fields: same bytes out, same value in
+func c12Hidden(c *Ctx, k protoCase, canon []byte) {
+	if tagged(k.Shape) {
+		return
+	}
+	l := lift{k.Salt}
+	x, t := goValue(l, k.Shape, k.Val, false)
+	ht := hiddenType(t)
+	hv := reflect.New(ht).Elem()
+	xv := reflect.ValueOf(x)
+	for i := 0; i < t.NumField(); i++ {
+		hv.Field(2*i + 1).Set(xv.Field(i))
+	}
+	var b1, b2 []byte
+	var e1, e2 error
+	c.Eval(2)
+	if p := protect(func() { b1, e1 = proto.Marshal(x); b2, e2 = proto.Marshal(hv.Interface()) }); p != "" {
+		c.Diverge("C12", "proto.Marshal(type with unexported fields)", "no panic", p, "", k)
+		return
+	}
+	if e1 == nil && (e2 != nil || (!hasBigMap(k.Val) && !bytes.Equal(b1, b2))) {
+		c.Diverge("C12", "proto.Marshal(type with unexported fields)", hex.EncodeToString(b1), fmt.Sprintf("%x err=%v", b2, e2), "", k)
+		return
+	}
+	out := reflect.New(ht)
+	var ue error
+	if p := protect(func() { ue = proto.Unmarshal(canon, out.Interface()) }); p != "" {
+		c.Diverge("C12", "proto.Unmarshal(type with unexported fields)", "no panic", p, "", k)
+		return
+	}
+	plain := reflect.New(t)
+	pe := proto.Unmarshal(canon, plain.Interface())
+	if (ue == nil) != (pe == nil) {
+		c.Diverge("C12", "proto.Unmarshal(type with unexported fields)", fmt.Sprintf("err=%v as for the plain type", pe), fmt.Sprintf("err=%v", ue), "", k)
+		return
+	}
+	if ue == nil {
+		got := reflect.New(t).Elem()
+		for i := 0; i < t.NumField(); i++ {
+			got.Field(i).Set(out.Elem().Field(2*i + 1))
+		}
+		if w, g := treeString(treeOfGo(k.Shape, plain.Elem())), treeString(treeOfGo(k.Shape, got)); w != g {
+			c.Diverge("C12", "proto.Unmarshal(type with unexported fields)", w, g, "", k)
+		}
+	}
+}
+
 func c12Vector(c *Ctx, raw stdjson.RawMessage) {
 	var full struct {
 		protoVec
@@ -565,6 +632,8 @@ func c12Vector(c *Ctx, raw stdjson.RawMessage) {
 			}
 		}
 		try("standard", canon)
+		c.Case()
+		c12Hidden(c, protoCase{Shape: v.Shape, Val: v.Val, Salt: salt, What: "hidden", Bytes: hex.EncodeToString(canon)}, canon)
 		if rb, err := refEncode(v.Shape, canon); err == nil {
 			try("reference.Marshal", rb)
 		}
@@ -587,6 +656,11 @@ func c12Vector(c *Ctx, raw stdjson.RawMessage) {
 
 func c12Replay(c *Ctx, raw stdjson.RawMessage) {
 	var k protoCase
+	if stdjson.Unmarshal(raw, &k) == nil && k.What == "hidden" {
+		canon, _ := hex.DecodeString(k.Bytes)
+		c12Hidden(c, k, canon)
+		return
+	}
 	if stdjson.Unmarshal(raw, &k) != nil {
 		return
 	}
